@@ -8,8 +8,8 @@ from .c08_c09_util import coq_eval_parts, coq_eval_sharded
 LEVEL = "proof"
 META = {
     "category": "proof",
-    "text": "Coq theorems over a statement-by-statement model of the resolver's parameter layout, the compiler's defaults tuple (MANDATORY sentinels, NumParams adjustment for a bare *), the CALL* flattening and setArgs/findParam over list (option value): for ALL well-formed signatures of any size and ALL calls the model equals an independently written Python-3 binder (same bindings on success, failure on exactly the same calls with the same error class), every parameter slot is written exactly once on success; the same for UnpackArgs/UnpackPositionalArgs with ?/?? markers and typed targets, plus the no-clobber statement. Tied to /repo on every run by executing the exhaustive bounded product of the property's quantifier (280 signatures x all call shapes) on the real interpreter and comparing with a Go re-implementation of the specification (all cases), with the Coq model and Spec.v (sample, vm_compute) and with CPython 3 (sample).",
-    "note": "Trusted: Coq kernel + vm_compute; the correspondence harness; the hand-written model is tied to the code only by differential execution; CPython 3.11 as an independent opinion on Spec.v (error class compared only where a single class applies: the priority among simultaneous errors is Starlark's own and differs from CPython's). Values are opaque (binding never inspects them). Evaluation order of argument expressions and default expressions is not part of this property.",
+    "text": "Coq theorems over a statement-by-statement model of the resolver's parameter layout, the compiler's defaults tuple (MANDATORY sentinels, NumParams adjustment for a bare *), the CALL* flattening and setArgs/findParam over list (option value): for ALL value types, ALL well-formed signatures of any size and ALL calls the model equals an independently written Python-3 binder (same bindings on success, failure on exactly the same calls with the same error class) and every parameter slot is written exactly once on success; for UnpackArgs/UnpackPositionalArgs with name/name?/name?? markers and typed targets: same error (class and parameter) as a per-parameter specification and the designated value in every target on success, no clobbering of the target of a wrongly typed argument (with the exact content of the other targets for positional failures), and -- when all argument types are acceptable -- the UnpackArgs specification coincides with the Python binder applied to def f(plain.., optional..=previous target). Tied to /repo on every run by executing the bounded product of the property's quantifier (280 signatures x call sites x * sequences x ** dicts; built-ins per parameter list x typed targets pre-filled with sentinels) on the real interpreter and comparing every case with Go re-implementations of the specifications, a sample with the Coq model and Spec (vm_compute) and with CPython 3.",
+    "note": "Trusted: Coq kernel + vm_compute; the correspondence harness; the hand-written model is tied to the code only by differential execution; CPython 3.11 as an independent opinion on Spec.v (error class compared only where a single class applies: the priority among simultaneous errors is Starlark's own and differs from CPython's). Values are opaque (binding never inspects them). Evaluation order of argument and default expressions is out of scope. Unpack: the parsing of the ?/?? suffix, Unpacker implementations, the reflection path for user-defined Value targets and unsigned integer targets are not modelled (suffix parsing is exercised by the harness).",
     "technique": "Coq proof over executable model + exhaustive differential correspondence (vm_compute) + independent Go and CPython oracles",
 }
 
@@ -197,17 +197,22 @@ def run_bind(ctx):
     hx = ctx.go_build("c08")
     quick = ctx.quick()
     cmd = [hx, "bind", "-workers", "6", "-seed", str(ctx.seed), "-frac", "0.004" if quick else "1",
-           "-coq", "130" if quick else "8000", "-py", "1500" if quick else "150000"]
+           "-coq", "110" if quick else "2500", "-py", "1500" if quick else "30000"]
     rows = ctx.jsonl(cmd, timeout=1500)
     summary = [r for r in rows if r.get("kind") == "summary"][0]
     cases = [r for r in rows if r.get("kind") in ("case", "mismatch")]
     ctx.log("bind: %d cases executed on the interpreter (%d signatures), %d disagree with the Go binder; %d printed" % (
         summary["cases"], summary["signatures"], summary["mismatches"], len(cases)))
     # (1) implementation vs the independent Go binder, every case
+    nfind = 0
     for c in cases:
         if c["kind"] == "mismatch":
-            key = "bind:%s->%s:%s" % (c["gospec"].get("err", "ok"), c["obs"].get("err", "ok"), call_class(c))
-            ctx.finding(key, "%s ; %s binds %s, the specification says %s" % (c["def"], c["src"], what(c["obs"]), what(c["gospec"])), c)
+            # one finding per (expected, observed) class and call/signature shape; at most 12 per run
+            key = "bind:%s->%s:%s" % (c["gospec"].get("err", "ok"), c["obs"].get("err", "ok").split(":")[0], call_class(c))
+            if nfind < 12 and key not in [f.key for f in ctx.findings]:
+                nfind += 1
+                ctx.finding(key, "%s ; %s binds %s, the specification says %s (%d cases disagree in this run)" % (
+                    c["def"], c["src"], what(c["obs"]), what(c["gospec"]), summary["mismatches"]), c)
     # (2) Coq model and Spec.v on the sample
     sample = [c for c in cases if c["coq"]]
     terms, refs = [], []
@@ -388,8 +393,6 @@ def run_unpack(ctx):
     hx = ctx.go_build("c08")
     quick = ctx.quick()
     cmd = [hx, "unpack", "-seed", str(ctx.seed), "-frac", "0.01" if quick else "1", "-coq", "40" if quick else "1500"]
-    if not quick:
-        cmd.append("-full")
     rows = ctx.jsonl(cmd, timeout=1200)
     summary = [r for r in rows if r.get("kind") == "usummary"][0]
     cases = [r for r in rows if r.get("kind") in ("ucase", "pcase")]
@@ -437,7 +440,7 @@ def unpack_finish(ctx, summary, terms, refs, bad_model, bad_spec):
         "unpack_distribution": summary["dist"], "unpack_fraction": summary["frac"], "unpack_coq_cases": len(terms),
         "unpack_model_mismatches": len(bad_model), "unpack_spec_mismatches": len(bad_spec),
         "unpack_go_spec_mismatches": summary["mismatches"],
-        "unpack_rule": "all parameter lists of <=3 parameters x marker (name, name?, name??) x target kind (quick: 6 kinds, a seeded 1% of the lists; thorough: 10 kinds, all lists) x calls with 0..4 positional arguments, every subset of declared names plus an undeclared one as keywords (two orders), with and without a duplicated keyword, argument types drawn (seeded) from None/bool/small int/large int/2^70/float/string/list/dict/tuple/function, half of the time a type the parameter accepts; UnpackPositionalArgs: all kind lists <=3 x min x 0..4 arguments x with/without keywords. Targets are pre-filled with sentinels and read back.",
+        "unpack_rule": "all parameter lists of <=3 parameters x marker (name, name?, name??) x target kind (10 kinds for the first parameter, 6 for the others; quick: a seeded 1% of the lists; thorough: all lists) x calls with 0..4 positional arguments, every subset of declared names plus an undeclared one as keywords (two orders), without and with a duplicated keyword (first, last and undeclared name), argument types drawn (seeded) from None/bool/small int/large int/2^70/float/string/list/dict/tuple/function, half of the time a type the parameter accepts; UnpackPositionalArgs: all kind lists <=3 x min x 0..4 arguments x with/without keywords. Targets are pre-filled with sentinels and read back.",
         "unpack_samples": [ucase_src(c) + " -> " + json.dumps(c["obs"]) for c in refs[:3]],
     }
 
@@ -449,7 +452,7 @@ def run(ctx):
     if ctx.quick():
         bad = coq_eval_parts(ctx, "c08_all", [pb, pu])
     else:
-        bad = coq_eval_sharded(ctx, "c08", [pb, pu], shard=500)
+        bad = coq_eval_sharded(ctx, "c08", [pb, pu], shard={"B": 600, "U": 1000})
     cov = fb(bad["B"])
     cov.update(fu(bad["U"]))
     cov["evaluations"] += cov["unpack_evaluations"]
